@@ -90,10 +90,94 @@ pub fn base_cfg(rng: &mut Rng, s: &mut Script, allow_odd_ctors: bool) {
 
 const ALL_TDEFL: [i64; 8] = [1, 2, 3, 5, 6, 7, 2, 3];
 
+/// Block-boundary family: match-free data (or level 0), calls that end exactly where the compressor closes a
+/// block on its own (31 * 1024 + 1 bytes after the previous boundary), a flush request in that very call, and
+/// output grants around the size of that block.
+pub fn boundary_family(rng: &mut Rng, s: &mut Script) -> Vec<u8> {
+    const B: usize = 31 * 1024 + 1;
+    let k = rng.range(1, 3);
+    let n = B * k + rng.pick(&[0usize, 0, 0, 1, 5, 300]) - rng.pick(&[0usize, 0, 1]);
+    let plain = rng.bytes(n);
+    if rng.chance(1, 3) {
+        s.set("level", 0);
+    } else if rng.chance(1, 3) {
+        s.set("strategy", 2);
+    }
+    s.set("window_bits", 15);
+    let fl = rng.pick(&[0i64, 1, 2, 3, 4, 4, 2, 3, 7]);
+    let grant = |rng: &mut Rng| -> i64 {
+        match rng.below(8) {
+            0 => 1000,
+            1 => 4096,
+            2 => rng.range(31740, 31765) as i64,
+            3 => rng.range(31000, 33000) as i64,
+            4 => 100,
+            5 => (n + n / 8 + 400) as i64,
+            6 => rng.range(1, 64) as i64,
+            _ => rng.range(2000, 90000) as i64,
+        }
+    };
+    let mut ops: Vec<Vec<i64>> = Vec::new();
+    let mut left = n;
+    // optionally a completed flush of the same mode first (then the boundary call repeats that mode)
+    if rng.chance(1, 3) {
+        let c = rng.range(0, 40).min(left);
+        left -= c;
+        ops.push(vec![c as i64, (n + 400) as i64, fl]);
+    }
+    let delta = rng.pick(&[0i64, 0, 0, 0, -1, 1]);
+    let first = ((B as i64 + delta).max(0) as usize).min(left);
+    if rng.chance(1, 2) {
+        ops.push(vec![first as i64, grant(rng), fl]);
+    } else {
+        let a = rng.range(0, first);
+        ops.push(vec![a as i64, grant(rng), 0]);
+        ops.push(vec![(first - a) as i64, grant(rng), fl]);
+    }
+    left -= first;
+    while left > 0 {
+        let c = if rng.chance(1, 2) { B.min(left) } else { rng.range(1, left) };
+        left -= c;
+        ops.push(vec![c as i64, grant(rng), if rng.chance(1, 2) { fl } else { 0 }]);
+    }
+    s.ops = ops;
+    if rng.chance(1, 3) {
+        s.set("tail_out", rng.pick(&[1000i64, 512, 4096, 31752]));
+    }
+    plain
+}
+
+/// Many-flush family: tens of thousands of tiny flushed blocks in one stream (counters that wrap).
+pub fn many_flush_family(rng: &mut Rng, s: &mut Script) -> Vec<u8> {
+    let f = rng.pick(&[2i64, 2, 3, 1]);
+    // a Full flush clears 128 KiB of hash tables per call: keep that variant just past the 16-bit boundary
+    let calls = if f == 3 { 65_540usize } else { rng.pick(&[65_540usize, 66_000, 70_000, 131_100]) };
+    let plain = rng.bytes(calls / 2);
+    let mut ops = Vec::with_capacity(calls);
+    for i in 0..calls {
+        ops.push(vec![(i % 2) as i64, 64, f]);
+    }
+    s.ops = ops;
+    if s.c("driver") == 1 {
+        s.set("driver", 0);
+    }
+    plain
+}
+
 pub fn gen_c02(rng: &mut Rng, _i: u64, tier: Tier) -> Script {
     let mut s = Script::new("C02", "pipe");
     base_cfg(rng, &mut s, true);
     s.set("clauses", PC_C02 | PC_C16);
+    if rng.chance(1, 25) {
+        let plain = boundary_family(rng, &mut s);
+        s.set_blob("plain", plain);
+        return s;
+    }
+    if rng.chance(1, 2500) {
+        let plain = many_flush_family(rng, &mut s);
+        s.set_blob("plain", plain);
+        return s;
+    }
     let heavy = rng.chance(1, 12);
     let n = if heavy { rng.range(32_000, 140_000) } else { gen::plain_size(rng, if tier == Tier::Thorough { 15 } else { 8 }) };
     let plain = if heavy {
@@ -142,6 +226,16 @@ pub fn gen_c12(rng: &mut Rng, _i: u64, tier: Tier) -> Script {
     let mut s = Script::new("C12", "pipe");
     base_cfg(rng, &mut s, true);
     s.set("clauses", PC_C12);
+    if rng.chance(1, 25) {
+        let plain = boundary_family(rng, &mut s);
+        s.set_blob("plain", plain);
+        return s;
+    }
+    if rng.chance(1, 2500) {
+        let plain = many_flush_family(rng, &mut s);
+        s.set_blob("plain", plain);
+        return s;
+    }
     let n = match rng.below(100) {
         x if x < (if tier == Tier::Thorough { 12 } else { 6 }) => rng.range(33_000, 140_000),
         x if x < 30 => rng.range(600, 8000),
@@ -311,6 +405,16 @@ pub fn gen_c09(rng: &mut Rng, i: u64, tier: Tier) -> Script {
         s.set("window_bits", rng.range(8, 15) as i64);
     }
     s.set("clauses", PC_C09);
+    if rng.chance(1, 30) {
+        let plain = boundary_family(rng, &mut s);
+        s.set_blob("plain", plain);
+        return s;
+    }
+    if rng.chance(1, 2500) {
+        let plain = many_flush_family(rng, &mut s);
+        s.set_blob("plain", plain);
+        return s;
+    }
     let n = match rng.below(10) {
         0 => rng.range(30_000, 100_000),
         1 | 2 => rng.range(600, 6000),
